@@ -15,6 +15,9 @@ func vHarnessPnftGenesisRoundTrip() {
 	ctx1, k1 := vEnvPnftG()
 	ms := keeper.NewMsgServerImpl(k1)
 	A, B, C := vNondetAddr("A"), vNondetAddr("B"), vNondetAddr("C")
+	// the receiver of the hand-over may be written in another valid spelling of its address
+	// (natively: upper-case bech32); the owner string is state and must survive the round trip as it is
+	C = vAddrSpelling("C.spelling", C)
 	d, t := vNondetString("denom", vIdMax), vNondetString("token", vIdMax)
 	c1 := sdk.WrapSDKContext(ctx1)
 	_, err := ms.CreateDenom(c1, &types.MsgCreateDenomRequest{Id: d, Name: "n", Symbol: "s", Creator: A})
